@@ -12,6 +12,9 @@ from vf.sched import proxies
 from vf.sched.proxies import CTL
 
 
+LIST_INIT = {}   # canonical list name -> initial contents (same in every run of a scenario)
+
+
 def run(programs, setup, mode, schedule=(), tail=(), shared=None):
   """Runs `programs` (callables) on real threads against a fresh Gin state.
 
@@ -19,6 +22,8 @@ def run(programs, setup, mode, schedule=(), tail=(), shared=None):
   import gin
   from gin import config as gc
   undo, names = proxies.install(gc)
+  undo_tap = proxies.tap_instance_lists(gc._ScopeManager, ('_active_scopes',))
+  proxies._PLISTS.clear()
   try:
     setup()
     CTL.mode = 'off'
@@ -54,6 +59,7 @@ def run(programs, setup, mode, schedule=(), tail=(), shared=None):
         t.start()
         t.join(60)
     CTL.mode = 'off'
+    LIST_INIT.update(proxies.canonical_list_names(CTL.logs))
     alive = [i for i, t in enumerate(threads) if t.is_alive()]
     errors = list(CTL.errors) + (['threads still alive: %r' % alive] if alive else [])
     final = {}
@@ -67,6 +73,7 @@ def run(programs, setup, mode, schedule=(), tail=(), shared=None):
               final[(v._pname, repr(k2))] = proxies.tok(v2)
     return [list(CTL.logs[i]) for i in range(len(programs))], results, errors, final, names
   finally:
+    undo_tap()
     undo()
 
 
@@ -194,7 +201,7 @@ class Scenario:
         tries[i].add(compress([ev for ev in tr if ev.obj in shared], guard, bad))
     self.shared = shared
     self.guard = guard
-    model = bmc.Model(tries)
+    model = bmc.Model(tries, list_init=dict(LIST_INIT))
     return model
 
   def solve(self, max_iters=40):
